@@ -44,8 +44,16 @@ class GaussHermiteQuadrature1D(Module):
         self.weights = weights
 
     def _apply(self, fn):
-        self.locations = fn(self.locations)
-        self.weights = fn(self.weights)
+        locations = fn(self.locations)
+        weights = fn(self.weights)
+        if locations.dtype != self.locations.dtype:
+            # A change of precision: round the float64 rule once, rather than converting values that were
+            # already rounded to the previous dtype (.double() would otherwise keep float32 accuracy)
+            exact_locations, exact_weights = np.polynomial.hermite.hermgauss(self.num_locs)
+            locations = torch.from_numpy(exact_locations).to(locations)
+            weights = torch.from_numpy(exact_weights).to(weights)
+        self.locations = locations
+        self.weights = weights
         return super(GaussHermiteQuadrature1D, self)._apply(fn)
 
     def _locs_and_weights(self, num_locs):
